@@ -240,11 +240,12 @@ def realise(rng, item, serial):
 _FRESH = {}
 
 
-def fresh_digest(data, plugins=True, every=True):
-    key = (data, plugins)
+def fresh_digest(data, plugins=True, every=True, tables=False):
+    key = (data, plugins, tables)
     if key not in _FRESH:
         p = subprocess.run([PY, os.path.join(VERIF, 'harness', 'c19_fresh.py')],
-                           input=json.dumps(dict(repo=REPO, verif=VERIF, hex=data.hex(), plugins=plugins)),
+                           input=json.dumps(dict(repo=REPO, verif=VERIF, hex=data.hex(), plugins=plugins, tables=tables,
+                                                 scratch=seams.scratch_dir('c19fresh'))),
                            stdout=subprocess.PIPE, stderr=subprocess.PIPE, text=True, timeout=60,
                            env=dict(os.environ, PYTHONDONTWRITEBYTECODE='1', PYTHONWARNINGS='ignore'))
         if p.returncode != 0:
@@ -280,9 +281,25 @@ def _history(case):
     seams.install_fixture_plugins()
     seams.install_registry()
     seams.clear_plugin_caches(unload=True)
+    # every second history runs with component-name tables for several creators installed (found and loaded by the
+    # tool's own loader on first use): whose log comes first must not decide whose names are shown
+    tables = case['seed'] % 2 == 1
+    if tables:
+        seams.install_comp_tables(os.path.join(seams.scratch_dir('c19'), 'comptables'))
+    else:
+        seams.no_comp_tables()
     pels = []
     for k, it in enumerate(case['items']):
         data, sent = realise(rng, it, k)
+        if tables and rng.random() < .8 and len(data) > 72 and data[:2] == b'PH':
+            # component ids the tables of this log's creator (or of another creator) know
+            cr = chr(data[16])
+            known = sorted(seams.COMP_TABLES.get(cr, {})) + sorted(seams.COMP_TABLES['O'])
+            b = bytearray(data)
+            b[6:8] = bytes.fromhex(rng.choice(known))
+            if rng.random() < .5:
+                b[54:56] = bytes.fromhex(rng.choice(known))
+            data = bytes(b)
         pels.append((data, sent))
     steps = []
     for k, it in enumerate(case['items']):
@@ -300,9 +317,10 @@ def _history(case):
             # the same SRC then consults the SRC parser of that creator (well-behaved for these words)
             consults = [it, dict(cache='src', mod=it['mod'], beh='ok', plugins=plug)]
         steps.append(dict(item=dict(it, plugins=plug), consults=[dict(c, plugins=plug) for c in consults],
-                          pel=data.hex()[:64] + ':%d:%s' % (len(data), plug), digest=dg, fresh=fresh_digest(data, plug),
+                          pel=data.hex()[:64] + ':%d:%s' % (len(data), plug), digest=dg, fresh=fresh_digest(data, plug, tables=tables),
                           caches=cache_projection()[0], caches_ok=cache_projection()[1], foreign=foreign))
     seams.clear_plugin_caches(unload=True)
+    seams.no_comp_tables()
     return [dict(kind='history', shape_ok=True, origin=case['origin'], steps=steps)]
 
 
